@@ -97,7 +97,12 @@ func (r result) String() string {
 	return fmt.Sprintf("%s pending=%v ooo=%v", r.kind, r.pending, r.ooo)
 }
 
-func model(files []file, revs []rev, o opts) result {
+func model(files []file, revs []rev, o opts) result { return modelX(files, revs, o, false) }
+
+// modelX: with innerApplied=false (the reference) a partially applied revision that is NOT the last one (a file run
+// out of order by a non-linear execution that failed partway) is not applied: its file is inside the out-of-order
+// window and handled per exec-order. innerApplied=true is the other reading; it only NAMES a disagreement.
+func modelX(files []file, revs []rev, o opts, innerApplied bool) result {
 	var migs []file
 	for _, f := range files {
 		if !f.Ck {
@@ -152,8 +157,10 @@ func model(files []file, revs []rev, o opts) result {
 	}
 	L := revs[len(revs)-1]
 	inRevs := map[string]bool{}
-	for _, r := range revs {
-		inRevs[r.Ver] = true
+	for i, r := range revs {
+		if innerApplied || !r.Partial || i == len(revs)-1 {
+			inRevs[r.Ver] = true
+		}
 	}
 	var p []file
 	var bound func(string) bool
@@ -370,15 +377,12 @@ func applyAgree(cs Case, want result, n int, empty string) string {
 		k = len(want.pending)
 	}
 	var exp []string
-	partial := ""
-	if len(cs.Revs) > 0 && cs.Revs[len(cs.Revs)-1].Partial {
-		partial = cs.Revs[len(cs.Revs)-1].Ver
-	}
+	partial := partials(cs)
 	for _, v := range want.pending[:k] {
 		if v == empty {
 			continue
 		}
-		if v != partial {
+		if !partial[v] {
 			exp = append(exp, fmt.Sprintf("select %s1;", v))
 		}
 		exp = append(exp, fmt.Sprintf("select %s2;", v))
@@ -406,6 +410,25 @@ func applyAgree(cs Case, want result, n int, empty string) string {
 		return fmt.Sprintf("after ExecuteN(%d)%s: pending %v, model's remainder %v", n, emptyNote(empty), got, want.pending[k:])
 	}
 	return ""
+}
+
+func partials(cs Case) map[string]bool {
+	m := map[string]bool{}
+	for _, r := range cs.Revs {
+		if r.Partial {
+			m[r.Ver] = true
+		}
+	}
+	return m
+}
+
+func innerPartial(cs Case) bool {
+	for i, r := range cs.Revs {
+		if r.Partial && i != len(cs.Revs)-1 {
+			return true
+		}
+	}
+	return false
 }
 
 func emptyNote(v string) string {
@@ -461,13 +484,22 @@ func enumerate(n int, fn func(Case)) (ood int) {
 						ood++
 						continue
 					}
-					for _, order := range []migrate.ExecOrder{migrate.ExecOrderLinear, migrate.ExecOrderLinearSkip, migrate.ExecOrderNonLinear} {
-						os_ := []opts{{Order: order}, {Order: order, Dirty: true}, {Order: order, Dirty: true, Allow: true}}
-						for i := 0; i < n; i++ {
-							os_ = append(os_, opts{Order: order, Baseline: vers[i]}, opts{Order: order, Baseline: vers[i], Dirty: true})
+					// additionally: exactly one of the non-last revisions partially applied (what a file that was
+					// run out of order by a non-linear execution and failed partway leaves behind)
+					base := revs
+					for inner := -1; inner < len(base)-1; inner++ {
+						revs := append([]rev(nil), base...)
+						if inner >= 0 {
+							revs[inner].Partial = true
 						}
-						for _, o := range os_ {
-							fn(Case{Files: files, Revs: revs, Opts: o})
+						for _, order := range []migrate.ExecOrder{migrate.ExecOrderLinear, migrate.ExecOrderLinearSkip, migrate.ExecOrderNonLinear} {
+							os_ := []opts{{Order: order}, {Order: order, Dirty: true}, {Order: order, Dirty: true, Allow: true}}
+							for i := 0; i < n; i++ {
+								os_ = append(os_, opts{Order: order, Baseline: vers[i]}, opts{Order: order, Baseline: vers[i], Dirty: true})
+							}
+							for _, o := range os_ {
+								fn(Case{Files: files, Revs: revs, Opts: o})
+							}
 						}
 					}
 				}
@@ -494,6 +526,9 @@ func check(c *rt.Ctx, cs Case, sample bool) {
 		if m.kind == r.kind {
 			key = "pending|" + m.kind + "|different-files"
 		}
+		if innerPartial(cs) && modelX(cs.Files, cs.Revs, cs.Opts, true).String() == r.String() {
+			key = "partial-not-last-revision|treated-as-applied"
+		}
 		c.Violation(key, fmt.Sprintf("Pending disagrees with the documented semantics: model=%s real=%s", m, r), cs, map[string]any{"model": m.String(), "real": r.String()})
 		return
 	}
@@ -508,12 +543,9 @@ func check(c *rt.Ctx, cs Case, sample bool) {
 			if k <= 0 || k > len(m.pending) {
 				k = len(m.pending)
 			}
-			partial := ""
-			if len(cs.Revs) > 0 && cs.Revs[len(cs.Revs)-1].Partial {
-				partial = cs.Revs[len(cs.Revs)-1].Ver
-			}
+			partial := partials(cs)
 			for _, empty := range append([]string{""}, m.pending[:k]...) {
-				if empty != "" && empty == partial {
+				if empty != "" && partial[empty] {
 					continue
 				}
 				var why string
